@@ -31,9 +31,9 @@ WellFormed(h) ==
                /\ \A i \in 1..Len(h[n].items) : h[n].items[i].s
                /\ \A i, j \in 1..Len(h[n].items) : h[n].items[i].v = h[n].items[j].v => i = j
          /\ h[n].kind = "dict" => \A i, j \in 1..Len(h[n].items) : h[n].items[i].k = h[n].items[j].k => i = j
-         (* the interpreter keeps ONE empty tuple and one empty frozenset: they have no identity of their own, so *)
-         (* the model does not use them as distinguishable nodes                                                 *)
-         /\ h[n].kind \in {"tuple", "frozenset"} => h[n].items # <<>>
+         (* the interpreter keeps ONE empty tuple and one empty frozenset: at most one node of a heap can be it *)
+         /\ h[n].kind \in {"tuple", "frozenset"} /\ h[n].items = <<>> =>
+               \A m \in DOMAIN h : h[m].kind = h[n].kind /\ h[m].items = <<>> => m = n
          (* a cycle can only be closed through containers that exist before their items do *)
          /\ OnCycle(h, n) => h[n].kind \in {"dict", "list"}
 IsTree(h) == \A n \in DOMAIN h : Cardinality({<<p, i>> \in (DOMAIN h) \X (1..4) : i <= Len(h[p].items) /\ ~h[p].items[i].s /\ h[p].items[i].v = n}) <= 1
@@ -64,11 +64,12 @@ Rebuild0(prog, h) == [n \in DOMAIN h |-> [kind |-> h[n].kind, items |-> NewItems
 (* a rebuilt tuple / frozenset that ended up empty is the interpreter's shared empty object: references to it are *)
 (* written as the scalar markers -1 / -2 (compared by value, not by identity)                                     *)
 EmptyImm(R, n) == R[n].items = <<>> /\ R[n].kind \in {"tuple", "frozenset"}
-Rebuild(prog, h) == LET R == Rebuild0(prog, h) IN
-    [n \in DOMAIN h |-> [kind |-> R[n].kind,
+MarkEmpty(R) ==
+    [n \in DOMAIN R |-> [kind |-> R[n].kind,
                          items |-> [i \in 1..Len(R[n].items) |->
                                       LET it == R[n].items[i] IN
                                       IF ~it.s /\ EmptyImm(R, it.v) THEN Item(it.k, TRUE, IF R[it.v].kind = "tuple" THEN -1 ELSE -2) ELSE it]]]
+Rebuild(prog, h) == MarkEmpty(Rebuild0(prog, h))
 (* nodes of the result that are still attached to the new root *)
 Live(prog, h) == Reach(Rebuild(prog, h), 1)
 =============================================================================
